@@ -362,7 +362,29 @@ static void run_delay(bool thorough, vh::Rng& rng) {
         const int total = rng.range(0, 3 * nd + 20);
         const auto lens = gen_cuts(rng, total, rng.range(1, 6));
         vh::set_current("C14:delay-crash", "{\"op\":\"Delay\",\"nd\":" + std::to_string(nd) + ",\"frames\":" + vh::jints(lens) + "}");
-        if (j % 3 == 2) {
+        if (j % 4 == 3) {
+            // the "initial contents" constructor, complex (did not compile before /repo a0bedcc)
+            arr_cmplx x(total);
+            for (int i = 0; i < total; ++i) x[i] = cmplx_t{rng.gauss(), rng.gauss()};
+            arr_cmplx init(nd);
+            for (int i = 0; i < nd; ++i) init[i] = cmplx_t{rng.gauss(), rng.gauss()};
+            DelayCmplx d(init);
+            std::string o;
+            int p = 0;
+            ld bad = 0;
+            for (int l : lens) {
+                const arr_cmplx y = d.process(sub(x, p, l));
+                for (int i = 0; i < y.size(); ++i) {
+                    const cmplx_t e = (p + i < nd) ? init[p + i] : x[p + i - nd];
+                    if (y[i].re != e.re || y[i].im != e.im || y.size() != l) bad = 1;
+                }
+                o += (o.empty() ? "" : " ") + vh::hxs(y);
+                p += l;
+            }
+            ++out.n_oracle;
+            if (bad != 0) out.fail("C14:delay", "{\"op\":\"DelayCmplx(initial)\",\"nd\":" + std::to_string(nd) + ",\"frames\":" + vh::jints(lens) + "}");
+            out.corr("dlyJ " + vh::hxs(init) + " " + frames_str(x, lens), o);
+        } else if (j % 3 == 2) {
             arr_cmplx x(total);
             for (int i = 0; i < total; ++i) x[i] = cmplx_t{rng.gauss(), rng.gauss()};
             DelayCmplx d(nd);
@@ -398,8 +420,7 @@ static void run_delay(bool thorough, vh::Rng& rng) {
             if (bad != 0) out.fail("C14:delay", "{\"op\":\"DelayReal\",\"nd\":" + std::to_string(nd) + ",\"frames\":" + vh::jints(lens) + "}");
             out.corr("dlyR " + std::to_string(nd) + " " + frames_str(x, lens), o);
         } else {
-            // the "initial contents" constructor (DelayReal only: `Delay<cmplx_t>(const arr_cmplx&)` does not compile, its
-            // `_buffer{initial}` selects base_array's initializer_list constructor through cmplx_t's converting constructor)
+            // the "initial contents" constructor, real
             arr_real x(total);
             for (int i = 0; i < total; ++i) x[i] = rng.gauss();
             arr_real init(nd);
@@ -648,7 +669,8 @@ static void tuner_case(int fs, double f, int total, int fmode, int corr_mode, vh
     if (threw) {
         // the constructor rejects |f| > fs / 2 (integer division): not an admissible f; the model must reject it too
         out.stat("tuner_rejected_by_constructor");
-        // admissible = |f| <= fs/2 (the header: "freq - tune freq in range (-sample_rate/2 : sample_rate/2)", the property: f in [-fs/2, fs/2])
+        // admissible = |f| <= fs/2 as real numbers (the header: "freq - tune freq in range (-sample_rate/2 : sample_rate/2)", the property:
+        // f in [-fs/2, fs/2]); an integer-division guard `_fs / 2` rejected floor(fs/2) < |f| <= fs/2 for odd fs (repaired in /repo bd73cae)
         if (std::fabs(f) <= fs / 2.0) {
             out.stat("tuner_rejected_inside_half_band");
             out.fail("C14:tuner-rejects-admissible-f", tun_json(fs, f, total, lens, -1, 0, 0));
